@@ -63,7 +63,9 @@ def predicates(K, op: str, a: dict, before) -> dict:
     for m in range(3):
         if m < N:
             nm = norms(K.factor_matrices[m], nt)
-            p[f"unit_{m}"] = bool(np.all((np.abs(nm - 1) <= TOL) | (nm <= TOL)))
+            # unit columns; a column may be zero only if it was zero in the operand (before: zero columns per mode)
+            p[f"unit_{m}"] = bool(np.all((np.abs(nm - 1) <= TOL) | (nm <= TOL))) and \
+                (before is None or int(np.sum(nm <= TOL)) <= before[m])
         else:
             p[f"unit_{m}"] = True
     w = K.weights
@@ -105,6 +107,7 @@ def call(op: str, a: dict) -> dict:
             I = lambda x: np.array(x, dtype=int)
             res = K
             extra = {}
+            zero_cols = [int(np.sum(np.all(f == 0, axis=0))) for f in K.factor_matrices]
             if op == "normalize":
                 wf = None if a["wf"] == "none" else ("all" if a["wf"] == "all" else a["wfmode"])
                 if a["mode"] >= 0:
@@ -182,7 +185,8 @@ def call(op: str, a: dict) -> dict:
                 raise ValueError(op)
             F = res.full()
             den = {"shape": [int(s) for s in F.shape], "v": bind.flatF(F.data)}
-            out = {"st": "ok", "den": den, "preds": predicates(res, op, a, None)}
+            out = {"st": "ok", "den": den, "preds": predicates(res, op, a, zero_cols if op in (
+                "normalize", "arrange", "arrange_perm", "fixsigns", "fixsigns_ref", "redistribute") else None)}
             out["preds"]["operand_unchanged_after_reparameterising_result"] = True
             if op in ("extract", "permute", "copy", "add", "sub", "neg", "scalar", "rscalar", "vec_roundtrip"):
                 F0 = K.full().data.copy()
